@@ -108,15 +108,16 @@ def zz():
 class RandGen:
     """well-formed by construction: grounded heads, no shadowing, positive programs"""
 
-    def __init__(self, seed):
+    def __init__(self, seed, max_arity=2, max_body=2):
         self.rng = random.Random(seed)
+        self.max_arity, self.max_body = max_arity, max_body
 
     def program(self, name, nrel=None, nrule=None):
         rng = self.rng
         nrel = nrel or rng.randint(2, 4)
         rels = []
         for i in range(nrel):
-            ar = rng.choice([1, 2, 2, 2, 3]) if i > 0 else 2
+            ar = min(self.max_arity, rng.choice([1, 2, 2, 2, 3])) if i > 0 else 2
             rels.append(R("r%d" % i, *([I] * ar)))
         rules = []
         nrule = nrule or rng.randint(2, 5)
@@ -126,7 +127,7 @@ class RandGen:
 
     def rule(self, rels):
         rng = self.rng
-        nb = rng.choice([1, 2, 2, 3])
+        nb = min(self.max_body, rng.choice([1, 2, 2, 3]))
         vars_pool = ["x", "y", "z", "w", "u"]
         bound = []
         body = []
@@ -137,7 +138,7 @@ class RandGen:
                 p = rng.random()
                 if bound and p < 0.35:
                     args.append(V(rng.choice(bound)))
-                elif p < 0.45:
+                elif p < 0.42:
                     args.append(C(rng.randint(0, 2)))
                 elif p < 0.52:
                     args.append(Wild())
@@ -158,7 +159,9 @@ class RandGen:
                     bound.append(a_.n)
             body.append(Clause(r.name, args))
             if bound and rng.random() < 0.25:
-                va, vb = V(rng.choice(bound)), (V(rng.choice(bound)) if rng.random() < 0.6 else C(rng.randint(0, 2)))
+                va = V(rng.choice(bound))
+                others = [q for q in bound if q != va.n]
+                vb = V(rng.choice(others)) if (others and rng.random() < 0.6) else C(rng.randint(0, 2))
                 body.append(If(Bin(rng.choice(["!=", "<", "<=", "=="]), va, vb)))
             elif bound and rng.random() < 0.12:
                 nm = "l%d" % len(bound)
@@ -174,6 +177,88 @@ class RandGen:
         return Rule([Head(hr.name, hargs)], body)
 
 
-def random_programs(seed, count, prefix="rnd"):
-    g = RandGen(seed)
+def random_programs(seed, count, prefix="rnd", max_arity=2, max_body=2):
+    g = RandGen(seed, max_arity, max_body)
     return [g.program("%s%d_%d" % (prefix, seed % 1000, i)) for i in range(count)]
+
+
+# ------------------------------------------------------------------------------------ C03 (lattices)
+DI = "Dual<i32>"
+CP_PRELUDE = "use ascent::lattice::constant_propagation::ConstPropagation::{self, *};"
+
+
+def c03_curated():
+    P = []
+    d, l, v_ = V("d"), V("l"), V("v")
+    P.append(Program("shortest_path", [R("edge", I, I, I), R("dist", I, I, DI, lattice=True)], [
+        rule(H("dist", x, y, Ctor("Dual", w)), Cl("edge", x, y, w)),
+        rule(H("dist", x, z_, Ctor("Dual", Bin("+", w, l))), Cl("dist", x, y, Pat(PC("Dual", PV("w")))), Cl("edge", y, z_, l))]))
+    P.append(Program("longest_dag", [R("edge", I, I, I), R("longest", I, I, I, lattice=True)], [
+        rule(H("longest", x, y, w), Cl("edge", x, y, w), If(Bin("<", x, y))),
+        rule(H("longest", x, z_, Bin("+", w, l)), Cl("longest", x, y, w), Cl("edge", y, z_, l), If(Bin("<", y, z_)))]))
+    P.append(Program("option_lat", [R("e", I, I), R("o", I, "Option<i32>", lattice=True)], [
+        rule(H("o", x, Ctor("Some", y)), Cl("e", x, y)),
+        rule(H("o", x, v_), Cl("o", y, v_), Cl("e", x, y))]))
+    P.append(Program("constprop", [R("assign", I, I), R("copy", I, I), R("val", I, "ConstPropagation<i32>", lattice=True), R("is_const", I, I)], [
+        rule(H("val", x, Ctor("Constant", c)), Cl("assign", x, c)),
+        rule(H("val", x, v_), Cl("copy", x, y), Cl("val", y, v_)),
+        rule(H("is_const", x, c), Cl("val", x, Pat(PC("Constant", PV("c")))))], prelude=CP_PRELUDE))
+    P.append(Program("lat_upward", [R("edge", I, I, I), R("dist", I, I, DI, lattice=True), R("near", I, I)], [
+        rule(H("dist", x, y, Ctor("Dual", w)), Cl("edge", x, y, w)),
+        rule(H("dist", x, z_, Ctor("Dual", Bin("+", w, l))), Cl("dist", x, y, Pat(PC("Dual", PV("w")))), Cl("edge", y, z_, l)),
+        rule(H("near", x, y), Cl("dist", x, y, Pat(PC("Dual", PV("d")))), If(Bin("<=", d, C(1)))),
+        rule(H("dist", x, y, Ctor("Dual", C(0))), Cl("near", y, x))]))
+    P.append(Program("lat_nonkey_join", [R("s", I, I), R("m", I, I, lattice=True), R("hit", I, I), R("q", I, I)], [
+        rule(H("m", x, y), Cl("s", x, y)),
+        rule(H("m", x, y), Cl("m", z_, y), Cl("s", x, z_)),
+        rule(H("hit", x, y), Cl("m", x, v_), Cl("q", y, v_)),
+        rule(H("hit", x, x), Cl("m", x, C(2)))]))
+    P.append(Program("lat_mutual", [R("e", I, I), R("s", I, I), R("la", I, I, lattice=True), R("lb", I, I, lattice=True)], [
+        rule(H("la", x, y), Cl("s", x, y)),
+        rule(H("lb", x, v_), Cl("la", x, v_)),
+        rule(H("la", x, Call("min", Bin("+", v_, C(1)), C(3))), Cl("lb", y, v_), Cl("e", y, x))]))
+    P.append(Program("lat_nokey", [R("s", I), R("mx", I, lattice=True), R("mn", DI, lattice=True), R("both", I, I)], [
+        rule(H("mx", x), Cl("s", x)),
+        rule(H("mn", Ctor("Dual", x)), Cl("s", x)),
+        rule(H("both", a, b), Cl("mx", a), Cl("mn", Pat(PC("Dual", PV("b")))))]))
+    return P
+
+
+# ------------------------------------------------------------------------------------ C04 (negation / aggregation)
+def c04_curated():
+    P = []
+    m_, s_ = V("m"), V("s")
+    P.append(Program("agg_count_key", [R("e", I, I), R("deg", I, "usize")], [
+        rule(H("deg", x, n), Cl("e", x, _), Agg(PV("n"), "count", [], "e", [x, _]))]))
+    P.append(Program("agg_sum_min_max", [R("e", I, I), R("k", I), R("sm", I, I), R("mn", I, I), R("mx", I, I)], [
+        rule(H("sm", x, s_), Cl("k", x), Agg(PV("s"), "sum", ["y"], "e", [x, y])),
+        rule(H("mn", x, m_), Cl("k", x), Agg(PV("m"), "min", ["y"], "e", [x, y])),
+        rule(H("mx", x, m_), Cl("k", x), Agg(PV("m"), "max", ["y"], "e", [y, x]))]))
+    P.append(Program("agg_global", [R("e", I, I), R("total", "usize"), R("top", I), R("has_none", I)], [
+        rule(H("total", n), Agg(PV("n"), "count", [], "e", [_, _])),
+        rule(H("top", m_), Agg(PV("m"), "max", ["y"], "e", [_, y])),
+        rule(H("has_none", C(1)), Neg("e", [_, _]))]))
+    P.append(Program("neg_basic", [R("e", I, I), R("node", I), R("sink", I), R("noself", I), R("iso", I)], [
+        rule(H("sink", x), Cl("node", x), Neg("e", [x, _])),
+        rule(H("noself", x), Cl("node", x), Neg("e", [x, x])),
+        rule(H("iso", x), Cl("sink", x), Neg("e", [_, x]))]))
+    P.append(Program("agg_over_recursive", [R("e", I, I), R("p", I, I), R("reach_cnt", I, "usize"), R("unreach", I, I)], [
+        rule(H("p", x, y), Cl("e", x, y)),
+        rule(H("p", x, z_), Cl("p", x, y), Cl("e", y, z_)),
+        rule(H("reach_cnt", x, n), Cl("e", x, _), Agg(PV("n"), "count", [], "p", [x, _])),
+        rule(H("unreach", x, y), Cl("e", x, _), Cl("e", _, y), Neg("p", [x, y]))]))
+    P.append(Program("agg_chain", [R("e", I, I), R("deg", I, "usize"), R("maxdeg", "usize"), R("hub", I)], [
+        rule(H("deg", x, n), Cl("e", x, _), Agg(PV("n"), "count", [], "e", [x, _])),
+        rule(H("maxdeg", m_), Agg(PV("m"), "max", ["d"], "deg", [_, V("d")])),
+        rule(H("hub", x), Cl("deg", x, V("d")), Cl("maxdeg", V("d")))]))
+    P.append(Program("agg_over_lattice", [R("edge", I, I, I), R("dist", I, I, DI, lattice=True), R("cnt", I, "usize"), R("far", I, DI)], [
+        rule(H("dist", x, y, Ctor("Dual", w)), Cl("edge", x, y, w)),
+        rule(H("dist", x, z_, Ctor("Dual", Bin("+", w, V("l")))), Cl("dist", x, y, Pat(PC("Dual", PV("w")))), Cl("edge", y, z_, V("l"))),
+        rule(H("cnt", x, n), Cl("edge", x, _, _), Agg(PV("n"), "count", [], "dist", [x, _, _])),
+        rule(H("far", x, m_), Cl("edge", x, _, _), Agg(PV("m"), "max", ["d"], "dist", [x, _, V("d")]))]))
+    P.append(Program("agg_mean", [R("e", I, I), R("avg", I, I)], [
+        rule(H("avg", x, Bin("*", m_, C(1))), Cl("e", x, _), Agg(PV("m"), "sum", ["y"], "e", [x, y]))]))
+    P.append(Program("agg_bound_expr", [R("e", I, I), R("k", I), R("r", I, "usize")], [
+        rule(H("r", x, n), Cl("k", x), Agg(PV("n"), "count", [], "e", [Bin("%", Bin("+", x, C(1)), C(3)), _])),
+        rule(H("r", x, n), Cl("k", x), Agg(PV("n"), "count", [], "e", [x, C(1)]))]))
+    return P
